@@ -40,6 +40,8 @@ type Op struct {
 	Docs  []string `json:"docs,omitempty"`
 	Probe bool     `json:"probe,omitempty"`
 	Page  int      `json:"page,omitempty"`
+	Text  string   `json:"text,omitempty"` // query text (default *)
+	Nulls bool     `json:"nulls,omitempty"` // query with includeNulls=true
 }
 
 // one column of one flushed block
@@ -57,7 +59,8 @@ type ColObs struct {
 	Payload string   `json:"payload"` // hex: block payload on disk (zstd blocks: decompressed)
 	Seen    uint32   `json:"seen"`    // AllSeenColumnSizes at flush time
 	HasSeen bool     `json:"hasseen"`
-	Recs    []string `json:"recs"`    // hex: what the real SegmentFileReader returns per record ("!"+err on error)
+	Recs    []string `json:"recs"`    // hex: real SegmentFileReader per record, no constant length passed ("!"+err on error)
+	RecsSC  []string `json:"recssc"`  // the same with the segment's constant record length (only when there is one)
 }
 
 type FlushObs struct {
@@ -77,6 +80,7 @@ type FlushObs struct {
 type Obs struct {
 	Err     string              `json:"err,omitempty"`
 	Count   int                 `json:"count,omitempty"`
+	Status  []int               `json:"status,omitempty"` // ingest: per-document status of the bulk response
 	Flushes []FlushObs          `json:"flushes,omitempty"`
 	Recs    []map[string]string `json:"recs,omitempty"` // query: field -> typed canonical value
 	Pages   int                 `json:"pages,omitempty"`
@@ -127,16 +131,22 @@ func canonVal(v interface{}) string {
 
 var qid uint64 = 100
 
-func runPagedQuery(page int) (recs []map[string]string, pages int, errs string) {
+func runPagedQuery(page int, text string, nulls bool) (recs []map[string]string, pages int, errs string) {
 	if page <= 0 {
 		page = 10000
+	}
+	if text == "" {
+		text = "*"
 	}
 	from := 0
 	for {
 		qid++
 		req := map[string]interface{}{
-			"searchText": "*", "indexName": indexName, "startEpoch": tsBase - 1000, "endEpoch": tsBase + uint64(1)<<40,
+			"searchText": text, "indexName": indexName, "startEpoch": tsBase - 1000, "endEpoch": tsBase + uint64(1)<<40,
 			"size": uint64(page), "from": uint64(from), "queryLanguage": "Splunk QL", "state": "query",
+		}
+		if nulls {
+			req["includeNulls"] = true
 		}
 		type res struct {
 			hits []map[string]interface{}
@@ -309,42 +319,47 @@ func probeFlush() ([]FlushObs, error) {
 					}
 				}
 				co.Payload = hex.EncodeToString(pl)
-				// the real reader, with the segment-level constant record length the query path would pass
-				fd, err := os.Open(csgName(p.SegKey, c.Name))
-				if err != nil {
-					return nil, err
-				}
-				sz := sutils.INCONSISTENT_CVAL_SIZE
-				if co.HasSeen {
-					sz = co.Seen
-				}
-				rd, err := segreader.InitNewSegFileReader(fd, c.Name, blocks, 0, sums, sz, allBmi)
-				if err != nil {
-					fd.Close()
-					return nil, err
-				}
-				func() {
-					defer func() {
-						if r := recover(); r != nil {
-							co.Recs = append(co.Recs, fmt.Sprintf("!panic: %v", r))
+				readAll := func(sz uint32) []string {
+					var recs []string
+					fd, err := os.Open(csgName(p.SegKey, c.Name))
+					if err != nil {
+						return []string{"!open: " + err.Error()}
+					}
+					rd, err := segreader.InitNewSegFileReader(fd, c.Name, blocks, 0, sums, sz, allBmi)
+					if err != nil {
+						fd.Close()
+						return []string{"!init: " + err.Error()}
+					}
+					func() {
+						defer func() {
+							if r := recover(); r != nil {
+								recs = append(recs, fmt.Sprintf("!panic: %v", r))
+							}
+						}()
+						if err := rd.ValidateAndReadBlock(p.NumBlocks); err != nil {
+							recs = append(recs, "!load: "+err.Error())
+							return
+						}
+						for i := 0; i < int(p.RecCount); i++ {
+							rec, err := rd.ReadRecord(uint16(i))
+							if err != nil {
+								recs = append(recs, "!"+err.Error())
+							} else if rec == nil {
+								recs = append(recs, "!nil")
+							} else {
+								recs = append(recs, hex.EncodeToString(rec))
+							}
 						}
 					}()
-					if err := rd.ValidateAndReadBlock(p.NumBlocks); err != nil {
-						co.Recs = append(co.Recs, "!load: "+err.Error())
-						return
-					}
-					for i := 0; i < int(p.RecCount); i++ {
-						rec, err := rd.ReadRecord(uint16(i))
-						if err != nil {
-							co.Recs = append(co.Recs, "!"+err.Error())
-						} else if rec == nil {
-							co.Recs = append(co.Recs, "!nil")
-						} else {
-							co.Recs = append(co.Recs, hex.EncodeToString(rec))
-						}
-					}
-				}()
-				_ = rd.Close()
+					_ = rd.Close()
+					return recs
+				}
+				// the match-all record fetch passes INCONSISTENT_CVAL_SIZE (recordreader.go)
+				co.Recs = readAll(sutils.INCONSISTENT_CVAL_SIZE)
+				// the search path passes the segment's AllSeenColumnSizes value
+				if co.HasSeen && co.Seen != sutils.INCONSISTENT_CVAL_SIZE && co.Seen > 0 {
+					co.RecsSC = readAll(co.Seen)
+				}
 			}
 			fo.Cols = append(fo.Cols, co)
 		}
@@ -354,7 +369,11 @@ func probeFlush() ([]FlushObs, error) {
 }
 
 func workerMain(dir, scriptPath, outPath string) {
-	log.SetLevel(log.PanicLevel)
+	if os.Getenv("C01_LOG") == "" {
+		log.SetLevel(log.PanicLevel)
+	} else {
+		log.SetLevel(log.ErrorLevel)
+	}
 	b, err := os.ReadFile(scriptPath)
 	if err != nil {
 		fmt.Fprintln(os.Stderr, err)
@@ -382,11 +401,26 @@ func workerMain(dir, scriptPath, outPath string) {
 				sb.WriteString(d)
 				sb.WriteString("\n")
 			}
-			n, _, err := eswriter.HandleBulkBody([]byte(sb.String()), nil, uint64(i+1), 0, false)
+			n, resp, err := eswriter.HandleBulkBody([]byte(sb.String()), nil, uint64(i+1), 0, false)
 			if err != nil {
 				obs[i].Err = err.Error()
 			}
 			obs[i].Count = n
+			if items, ok := resp["items"].([]interface{}); ok {
+				for _, it := range items {
+					st := 0
+					if m, ok := it.(map[string]interface{}); ok {
+						if v, ok := m["status"].(int); ok {
+							st = v
+						} else if im, ok := m["index"].(map[string]interface{}); ok {
+							if v, ok := im["status"].(int); ok {
+								st = v
+							}
+						}
+					}
+					obs[i].Status = append(obs[i].Status, st)
+				}
+			}
 		case "flush":
 			if op.Probe {
 				fl, err := probeFlush()
@@ -403,7 +437,7 @@ func workerMain(dir, scriptPath, outPath string) {
 			writer.ForcedFlushToSegfile()
 			writer.WaitForSortedIndexToComplete()
 		case "query":
-			recs, pages, e := runPagedQuery(op.Page)
+			recs, pages, e := runPagedQuery(op.Page, op.Text, op.Nulls)
 			obs[i].Recs, obs[i].Pages, obs[i].Err = recs, pages, e
 		default:
 			obs[i].Err = "unknown op " + op.Kind
